@@ -243,8 +243,23 @@ where
     fn parse(input: ParseStream) -> syn::Result<Self> {
         let mut attrs = ParseableAttributes::default();
 
+        // Names of the attributes that carry a value and have been already parsed.
+        // A repeated attribute would silently replace the previous one (e.g. the second
+        // `validate(..)` would drop the validators of the first one), so it is refused.
+        let mut seen: Vec<String> = Vec::new();
+
         while !input.is_empty() {
             let ident: Ident = input.parse()?;
+            if ident == "sanitize" || ident == "validate" || ident == "derive" || ident == "default"
+            {
+                let name = ident.to_string();
+                if seen.contains(&name) {
+                    let msg =
+                        format!("Duplicate attribute `{name}`. It must be specified only once.");
+                    return Err(syn::Error::new(ident.span(), msg));
+                }
+                seen.push(name);
+            }
             if ident == "sanitize" {
                 if input.peek(Paren) {
                     let content;
